@@ -538,7 +538,18 @@ class Engine:
                 if q is not None:
                     go(i + 1, q)
         go(0, st)
-        return out
+        return self.merge_values(out)
+
+    def merge_values(self, out):
+        """merge-always mode: the alternatives of a pure `a or b` / `x if c else y` rejoin into one state whose value is an if-then-else term"""
+        if getattr(self.contract, 'merge_ifs', False) != 'always' or len(out) < 2 or any(isinstance(v, Raise) or not z3.is_expr(v) for _, v in out):
+            return out
+        m = self.merge_states([s.bind('__merge_tmp', v) for s, v in out])
+        if m is None:
+            return out
+        v = m.env['__merge_tmp']
+        env = dict(m.env); env.pop('__merge_tmp', None)
+        return [(m.copy(env=env), v)]
 
     def ev_UnaryOp(self, e, st):
         out = []
@@ -566,7 +577,7 @@ class Engine:
             q = self.fork(s1, z3.Not(t))
             if q is not None:
                 out += self.ev(e.orelse, q)
-        return out
+        return self.merge_values(out)
 
     def ev_Compare(self, e, st):
         out = []
@@ -731,6 +742,14 @@ class Engine:
                 return self.ev(r[2], st)
             if attr == '__name__':
                 return [(st, S(v.name))]
+            if r and r[0] == 'method':
+                # Class.method(...): a staticmethod is called with the arguments as they are, a classmethod gets the class first
+                decos = [d.id if isinstance(d, ast.Name) else getattr(d, 'attr', '?') for d in r[2].decorator_list]
+                key = f"{self.T.classes[r[1]].module}::{r[1]}.{attr}"
+                if 'staticmethod' in decos:
+                    return [(st, PyFunc(key, lambda en, s, a, kw, key=key: en.call_repo_function(key, s, list(a), kw)))]
+                if 'classmethod' in decos:
+                    return [(st, PyFunc(key, lambda en, s, a, kw, key=key, v=v: en.call_repo_function(key, s, [v] + list(a), kw)))]
             raise OutOfSubset(f"class attribute {v.name}.{attr}")
         if isinstance(v, PyFunc) and v.fn is None:
             return [(st.tainted(), PyFunc(f"{v.name}.{attr}", None))]      # attribute of an unmodelled value: still unmodelled (tainted)
@@ -1969,6 +1988,12 @@ class Engine:
                     break
             if rest is not None:
                 out.append((rest, kind, v))
+        if getattr(self.contract, 'merge_ifs', False) == 'always':
+            falls = [x[0] for x in out if x[1] == 'fall']
+            if len(falls) > 1:
+                m = self.merge_states(falls)
+                if m is not None:
+                    out = [x for x in out if x[1] != 'fall'] + [(m, 'fall', None)]
         return out
 
     def st_Continue(self, sm, st):
